@@ -116,7 +116,9 @@ EndLabels ==
           (IF E.gerr # "" THEN {"C03-generator-error"} ELSE {})
      \cup (IF NriApply(orig, ObsComb) # cont THEN {"C04-combined"} ELSE {})
      \cup (IF Core(E.fcomb, OciFields) # Expected THEN {"C03-combined"} ELSE {})
-     \cup (IF Core(E.fseq, OciFields) # Expected THEN {"C03-sequential"} ELSE {}))
+     \cup (IF Core(E.fseq, OciFields) # Expected THEN {"C03-sequential"} ELSE {})
+     \* the same container includes the order of its mounts (the runtime lists its own mounts in either order)
+     \cup (IF E.fcomb.mord # E.fseq.mord THEN {"C03-mount-order"} ELSE {}))
 EndDetail ==
   IF kind # "create" THEN <<{}, {}, {}, UpdDiff(E.updates)>> ELSE
   <<Diff(NriApply(orig, ObsComb), cont, ContFields), Diff(E.fcomb, Expected, OciFields),
